@@ -293,6 +293,34 @@ theorem colliding_options_yield_equal_queries :
     overlay [] (choice ax [0, 0]) = overlay [] (choice ax [1, 0]) :=
   ⟨by decide +kernel, by decide +kernel, by rfl⟩
 
+/-- **None twice, as values**: when every option is a scalar (non-object) and the options of each
+axis are pairwise different, the generated queries themselves are pairwise different.  (With object
+options this needs disjoint key sets; with colliding keys it is false, see above.) -/
+theorem grid_outputs_distinct_scalar_axes {q : Json} {kvs sec : List (String × Json)}
+    (h : GridQuery q kvs sec) (hk : (sec.map (·.1)).Nodup)
+    (hs : ∀ a ∈ axes sec, ∀ v ∈ a.2, v.isObject = false) (ho : ∀ a ∈ axes sec, a.2.Nodup) :
+    ∃ outs, process q = .ok (.arr outs) ∧ outs.Nodup := by
+  refine ⟨_, grid_expansion h, ?_⟩
+  unfold expand
+  refine List.Nodup.map_on ?_ (combos_nodup _)
+  intro c hc c' hc' heq
+  exact overlay_inj_scalar _ _ ((axes_keys_sublist sec).nodup hk) hs ho c c'
+    ((mem_combos _ _).mp hc) ((mem_combos _ _).mp hc') (Json.obj.inj heq)
+
+def exScalarSection : List (String × Json) :=
+  [("x", .arr [.num "1" 0, .num "2" 0]), ("y", .arr [.str "p", .str "q", .str "r"])]
+def exScalarQuery : List (String × Json) := [("k", .null), ("grid_search", .obj exScalarSection)]
+
+example : ∃ outs, process (.obj exScalarQuery) = .ok (.arr outs) ∧ outs.Nodup ∧ outs.length = 6 := by
+  have hg : GridQuery (.obj exScalarQuery) exScalarQuery exScalarSection :=
+    ⟨rfl, by rfl, by decide +kernel, by decide +kernel⟩
+  obtain ⟨outs, h1, h2⟩ := grid_outputs_distinct_scalar_axes hg (by decide +kernel)
+    (by simp [axes, exScalarSection, Json.isObject]) (by simp [axes, exScalarSection])
+  obtain ⟨outs', h3, h4⟩ := grid_count hg
+  rw [h1] at h3
+  cases h3
+  exact ⟨outs, h1, h2, by rw [h4]; decide +kernel⟩
+
 /-! ### key order (the correspondence run compares it textually) -/
 
 /-- removal of the grid key is `swap_remove`: the last field takes its slot … -/
